@@ -461,7 +461,7 @@ fn run_ladder_family(family: &'static str, idx: usize, scratch: &std::path::Path
 // The check
 
 fn run(a: &vhcore::Args) -> i32 {
-    let mut rep = vhcore::Reporter::from_args(a, "model_checking");
+    let mut rep = vhcore::Reporter::from_args(a, "exploration");
     let t = a.tier;
     let work = vhcore::work_dir("C17/run"); // /verif/work/C17/{repro,fix-*.patch} survive re-runs
     let t_start = Instant::now();
